@@ -122,57 +122,91 @@ fn fde_line(f: &FrameDescriptionEntry<R>) -> String {
     )
 }
 
-/// every entry of the section in iteration order, each FDE fully parsed against its CIE
-fn dump<'a, S>(sec: &S, bases: &BaseAddresses) -> String
+/// the remaining items of an entries iterator, one text per item, ending with "end" or "err X";
+/// `clones`: positions (items already delivered) at which the iterator is cloned — every clone must
+/// continue exactly like the original from there
+fn dump_lines<'a, 'b, S>(
+    sec: &S,
+    bases: &'b BaseAddresses,
+    mut it: gimli::CfiEntriesIter<'b, S, R<'a>>,
+    clones: &[usize],
+) -> Result<Vec<String>, String>
 where
     S: UnwindSection<R<'a>>,
     S::Offset: UnwindOffset<usize>,
 {
-    let mut out = String::from("ok");
-    let mut it = sec.entries(bases);
+    let mut out: Vec<String> = Vec::new();
+    let mut saved: Vec<(usize, gimli::CfiEntriesIter<'b, S, R<'a>>)> = Vec::new();
     let mut guard = 0usize;
     loop {
+        if clones.contains(&out.len()) {
+            saved.push((out.len(), it.clone()));
+        }
         guard += 1;
         if guard > 100000 {
-            return "iter-nonterminating-mismatch".into();
+            return Err("iter-nonterminating-mismatch".into());
         }
         match it.next() {
             Ok(None) => {
-                out.push_str(" | end");
+                out.push("end".into());
                 break;
             }
             Err(e) => {
-                out.push_str(&format!(" | err {}", errname(&e)));
+                out.push(format!("err {}", errname(&e)));
                 // stop-after-error: the iterator must be exhausted now
                 match it.next() {
                     Ok(None) => {}
-                    _ => return "iter-continues-after-error-mismatch".into(),
+                    _ => return Err("iter-continues-after-error-mismatch".into()),
                 }
                 break;
             }
-            Ok(Some(CieOrFde::Cie(c))) => {
-                out.push_str(" | ");
-                out.push_str(&cie_line(&c));
-            }
+            Ok(Some(CieOrFde::Cie(c))) => out.push(cie_line(&c)),
             Ok(Some(CieOrFde::Fde(p))) => {
                 let d = format!("{:?}", p);
                 let co: usize = UnwindOffset::into(p.cie_offset());
-                out.push_str(&format!(" | F {} {} {} {} ", p.offset(), p.entry_len(), dbg_fmt64(&d), co));
+                let mut l = format!("F {} {} {} {} ", p.offset(), p.entry_len(), dbg_fmt64(&d), co);
                 match p.parse(|s, b, o| s.cie_from_offset(b, o)) {
                     Ok(f) => {
                         // the FDE must carry exactly the CIE found at its pointer
                         match sec.cie_from_offset(bases, p.cie_offset()) {
                             Ok(c) if &c == f.cie() => {}
-                            _ => return "fde-cie-binding-mismatch".into(),
+                            _ => return Err("fde-cie-binding-mismatch".into()),
                         }
-                        out.push_str(&fde_line(&f));
+                        l.push_str(&fde_line(&f));
                     }
-                    Err(e) => out.push_str(&err(&e)),
+                    Err(e) => l.push_str(&err(&e)),
                 }
+                out.push(l);
             }
         }
     }
-    out
+    for (at, c) in saved {
+        let rest = dump_lines(sec, bases, c, &[])?;
+        if rest[..] != out[at..] {
+            return Err(format!("history-mismatch clone taken after {} items continues differently", at));
+        }
+    }
+    Ok(out)
+}
+
+/// every entry of the section in iteration order, each FDE fully parsed against its CIE
+fn dump_with<'a, S>(sec: &S, bases: &BaseAddresses, clones: &[usize]) -> String
+where
+    S: UnwindSection<R<'a>>,
+    S::Offset: UnwindOffset<usize>,
+{
+    match dump_lines(sec, bases, sec.entries(bases), clones) {
+        Ok(lines) => format!("ok | {}", lines.join(" | ")),
+        Err(m) => m,
+    }
+}
+
+fn dump<'a, S>(sec: &S, bases: &BaseAddresses) -> String
+where
+    S: UnwindSection<R<'a>>,
+    S::Offset: UnwindOffset<usize>,
+{
+    dump_with(sec, bases, &[])
 }
 
 /// the impl's own exhaustive scan: first FDE in iteration order that contains `a`
@@ -581,6 +615,328 @@ fn setloc_case(t: &[&str]) -> String {
     }
 }
 
+// ---------------------------------------------------------------- EhHdrTableIter histories
+fn hiter_case(t: &[&str]) -> String {
+    // <be> <hasz> <hsec> <htext> <hdata> <hdrbytes> <op>*   op: n | k<num> | h
+    let en = endian(t[1]);
+    let hasz = u(t[2]) as u8;
+    let mut bases = BaseAddresses::default();
+    bases.eh_frame_hdr = sb(&t[3..6]);
+    let hbytes = hex(t[6]);
+    let hdr = EhFrameHdr::new(&hbytes, en);
+    let parsed = match hdr.parse(&bases, hasz) {
+        Ok(p) => p,
+        Err(e) => return err(&e),
+    };
+    let table = match parsed.table() {
+        Some(tb) => tb,
+        None => return "ok notable".into(),
+    };
+    // spec-level oracle on the implementation alone: the rows of a fresh full scan
+    let mut scan: Vec<(Pointer, Pointer)> = Vec::new();
+    {
+        let mut it = table.iter(&bases);
+        let cap = hbytes.len() + 2;
+        while let Ok(Some(r)) = it.next() {
+            scan.push(r);
+            if scan.len() > cap {
+                return "iter-nonterminating-mismatch".into();
+            }
+        }
+    }
+    let mut it = table.iter(&bases);
+    // where the history stands: At(i) = i rows consumed or skipped; Ended = an operation returned None
+    // (or next failed): no row may be yielded any more; Unknown = nth failed while skipping (gimli has
+    // then reduced its count without moving: no index oracle from there on)
+    #[derive(Clone, Copy, PartialEq)]
+    enum Pos {
+        At(usize),
+        Ended,
+        Unknown,
+    }
+    let mut pos = Pos::At(0);
+    let mut out = String::from("ok");
+    for op in &t[7..] {
+        if *op == "h" {
+            let a = Iterator::size_hint(&it);
+            let b = fallible_iterator::FallibleIterator::size_hint(&it);
+            if a != b {
+                return "history-mismatch size_hint of the two iterator traits differ".into();
+            }
+            // the upper bound must cover the rows a drain from here can still yield
+            if let (Some(hi), Pos::At(p)) = (a.1, pos) {
+                if p <= scan.len() && hi < scan.len() - p {
+                    return format!("history-mismatch size_hint upper bound {} below the {} rows left", hi, scan.len() - p);
+                }
+            }
+            out.push_str(&format!(" H{}:{}", a.0, a.1.map(|x| x.to_string()).unwrap_or("-".into())));
+            continue;
+        }
+        let (k, res) = if *op == "n" {
+            (0usize, it.next())
+        } else {
+            let k: u64 = op[1..].parse().unwrap();
+            (k as usize, it.nth(k as usize))
+        };
+        match res {
+            Ok(Some(r)) => {
+                match pos {
+                    Pos::At(p) => {
+                        let idx = p.saturating_add(k);
+                        if scan.get(idx) != Some(&r) {
+                            return format!("history-mismatch {} returned {}:{} as row {}", op, ptr(r.0), ptr(r.1), idx);
+                        }
+                        pos = Pos::At(idx + 1);
+                    }
+                    Pos::Ended => return format!("history-mismatch {} yielded a row after the end", op),
+                    Pos::Unknown => {}
+                }
+                out.push_str(&format!(" S{}:{}", ptr(r.0), ptr(r.1)));
+            }
+            Ok(None) => {
+                pos = Pos::Ended;
+                out.push_str(" N")
+            }
+            Err(e) => {
+                let name = errname(&e);
+                if *op == "n" {
+                    pos = Pos::Ended;
+                } else if name != "UnsupportedPointerEncoding" {
+                    // nth refuses variable-size encodings before touching the iterator
+                    pos = Pos::Unknown;
+                }
+                out.push_str(&format!(" E{}", name))
+            }
+        }
+    }
+    out
+}
+
+// ---------------------------------------------------------------- mixed-operation histories
+fn first_fde<'a, S>(sec: &S, bases: &BaseAddresses) -> Option<FrameDescriptionEntry<R<'a>>>
+where
+    S: UnwindSection<R<'a>>,
+{
+    let mut it = sec.entries(bases);
+    while let Ok(Some(e)) = it.next() {
+        if let CieOrFde::Fde(p) = e {
+            if let Ok(f) = p.parse(|s, b, o| s.cie_from_offset(b, o)) {
+                return Some(f);
+            }
+        }
+    }
+    None
+}
+
+/// count the instructions of a stream, cloning the iterator after `j` items and resuming the clone
+fn insn_hist<'a>(mut it: gimli::CallFrameInstructionIter<'a, R<'a>>, j: usize) -> Result<String, String> {
+    fn drain<'a>(it: &mut gimli::CallFrameInstructionIter<'a, R<'a>>) -> Result<(usize, String), String> {
+        let mut n = 0usize;
+        loop {
+            match it.next() {
+                Ok(Some(_)) => n += 1,
+                Ok(None) => return Ok((n, "ok".into())),
+                Err(e) => {
+                    if !matches!(it.next(), Ok(None)) {
+                        return Err("iter-continues-after-error-mismatch".into());
+                    }
+                    return Ok((n, errname(&e)));
+                }
+            }
+        }
+    }
+    let mut n = 0usize;
+    let mut saved = None;
+    let term;
+    loop {
+        if n == j {
+            saved = Some(it.clone());
+        }
+        match it.next() {
+            Ok(Some(_)) => n += 1,
+            Ok(None) => {
+                term = "ok".to_string();
+                break;
+            }
+            Err(e) => {
+                if !matches!(it.next(), Ok(None)) {
+                    return Err("iter-continues-after-error-mismatch".into());
+                }
+                term = errname(&e);
+                break;
+            }
+        }
+    }
+    if let Some(mut c) = saved {
+        let (m, t2) = drain(&mut c)?;
+        if m + j != n || t2 != term {
+            return Err(format!("history-mismatch instruction iterator cloned after {} items: {}:{} vs {}:{}", j, m + j, t2, n, term));
+        }
+    }
+    Ok(format!("{}:{}", n, term))
+}
+
+fn hist_sec<'a, S>(kind: &str, sec: &S, bases: &BaseAddresses, js: &[usize]) -> String
+where
+    S: UnwindSection<R<'a>>,
+    S::Offset: UnwindOffset<usize>,
+{
+    match kind {
+        "E" => dump_with(sec, bases, js),
+        "I" => {
+            let f = match first_fde(sec, bases) {
+                Some(f) => f,
+                None => return "ok nofde".into(),
+            };
+            let a = match insn_hist(f.cie().instructions(sec, bases), js[0]) {
+                Ok(x) => x,
+                Err(m) => return m,
+            };
+            let b = match insn_hist(f.instructions(sec, bases), js[0]) {
+                Ok(x) => x,
+                Err(m) => return m,
+            };
+            format!("ok c{} f{}", a, b)
+        }
+        _ => {
+            // T: next_row j times, then into_current_row
+            let f = match first_fde(sec, bases) {
+                Some(f) => f,
+                None => return "ok nofde".into(),
+            };
+            let mut ctx = UnwindContext::<usize, StoreOnHeap>::new();
+            let mut table = match f.rows(sec, bases, &mut ctx) {
+                Ok(t) => t,
+                Err(e) => return err(&e),
+            };
+            let mut out = String::from("ok");
+            let mut last: Option<String> = None;
+            for _ in 0..js[0] {
+                match table.next_row() {
+                    Ok(Some(row)) => {
+                        out.push_str(&format!(" {}-{}", row.start_address(), row.end_address()));
+                        last = match fmt_row(row, &[]) {
+                            Ok(s) => Some(s),
+                            Err(m) => return m,
+                        };
+                    }
+                    Ok(None) => {
+                        out.push_str(" none");
+                        last = None;
+                    }
+                    Err(e) => {
+                        out.push_str(&format!(" E{}", errname(&e)));
+                        last = None;
+                        break;
+                    }
+                }
+            }
+            let cur = match table.into_current_row() {
+                Some(row) => match fmt_row(row, &[]) {
+                    Ok(s) => Some(s),
+                    Err(m) => return m,
+                },
+                None => None,
+            };
+            // oracle: the current row is the row the last next_row delivered, and only then
+            if cur != last {
+                return format!("history-mismatch into_current_row = {:?} after last delivered {:?}", cur, last).replace(' ', "_");
+            }
+            out.push_str(&format!(" cur={}", cur.unwrap_or("none".into())));
+            out
+        }
+    }
+}
+
+fn hist_case(t: &[&str]) -> String {
+    let kind = t[1];
+    if kind == "L" {
+        // L <be> <hasz> <hsec> <htext> <hdata> <hdrbytes> <easz> <esec> <etext> <edata> <ehbytes> <wf> <j> <a>
+        let en = endian(t[2]);
+        let hasz = u(t[3]) as u8;
+        let mut bases = BaseAddresses::default();
+        bases.eh_frame_hdr = sb(&t[4..7]);
+        let hbytes = hex(t[7]);
+        let j = u(t[14]) as usize;
+        let a = u(t[15]);
+        let hdr = EhFrameHdr::new(&hbytes, en);
+        let parsed = match hdr.parse(&bases, hasz) {
+            Ok(p) => p,
+            Err(e) => return err(&e),
+        };
+        let table = match parsed.table() {
+            Some(tb) => tb,
+            None => return "ok notable".into(),
+        };
+        let fresh = match table.lookup(a, &bases) {
+            Ok(p) => ptr(p),
+            Err(e) => errname(&e),
+        };
+        let mut it = table.iter(&bases);
+        let mut out = String::from("ok rows");
+        let mut n = 0usize;
+        let cap = hbytes.len() + 2;
+        let mut mid: Option<String> = None;
+        loop {
+            if n == j {
+                // a lookup in the middle of an iteration
+                mid = Some(match table.lookup(a, &bases) {
+                    Ok(p) => ptr(p),
+                    Err(e) => errname(&e),
+                });
+            }
+            match it.next() {
+                Ok(Some((x, y))) => {
+                    n += 1;
+                    if n > cap {
+                        return "iter-nonterminating-mismatch".into();
+                    }
+                    out.push_str(&format!(" {}:{}", ptr(x), ptr(y)));
+                }
+                Ok(None) => {
+                    out.push_str(" end");
+                    break;
+                }
+                Err(e) => {
+                    out.push_str(&format!(" err {}", errname(&e)));
+                    break;
+                }
+            }
+        }
+        let after = match table.lookup(a, &bases) {
+            Ok(p) => ptr(p),
+            Err(e) => errname(&e),
+        };
+        if let Some(m) = &mid {
+            if *m != fresh {
+                return "history-mismatch lookup during iteration differs from a fresh lookup".into();
+            }
+        }
+        if after != fresh {
+            return "history-mismatch lookup after iteration differs from a fresh lookup".into();
+        }
+        out.push_str(&format!(" | {}", fresh));
+        return out;
+    }
+    // E/I/T <eh> <be> <asz> <sec> <text> <data> <bytes> <j>*
+    let eh = t[2] == "1";
+    let en = endian(t[3]);
+    let asz = u(t[4]) as u8;
+    let mut bases = BaseAddresses::default();
+    bases.eh_frame = sb(&t[5..8]);
+    let bytes = hex(t[8]);
+    let js: Vec<usize> = t[9..].iter().map(|x| u(x) as usize).collect();
+    if eh {
+        let mut s = EhFrame::new(&bytes, en);
+        s.set_address_size(asz);
+        hist_sec(kind, &s, &bases, &js)
+    } else {
+        let mut s = DebugFrame::new(&bytes, en);
+        s.set_address_size(asz);
+        hist_sec(kind, &s, &bases, &js)
+    }
+}
+
 pub fn run(t: &[&str]) -> String {
     match t[0] {
         "c05.pe" => {
@@ -616,6 +972,8 @@ pub fn run(t: &[&str]) -> String {
         "c05.look" | "c05.lraw" => section_case(t, true),
         "c05.hdr" | "c05.hraw" => hdr_case(t),
         "c05.uwi" => uwi_case(t),
+        "c05.hiter" => hiter_case(t),
+        "c05.hist" => hist_case(t),
         "c05.setloc" => setloc_case(t),
         "c05.nopanic" => {
             // <class> <kind> rest...: run the named family, report only that it returned
